@@ -881,6 +881,7 @@ class Engine:
         self._uniq = 0
         self.fp_atoms = {}
         self.fp_bv = {}
+        self.fp_assertions = []
 
     def begin(self, prefix):
         self.reset_path(prefix)
@@ -915,7 +916,8 @@ class Engine:
         bv = z3.BitVec(name + '!bv', bits)
         self.fp_atoms[name] = z3.fpSignedToFP(_rne(), bv, F64())
         self.fp_bv[name] = bv
-        self.solver.add(bv >= lo, bv <= hi)
+        self._assert(bv >= lo)
+        self._assert(bv <= hi)
         return self._register(name, SymInt(x))
 
     def fbv(self, name):
@@ -932,7 +934,7 @@ class Engine:
             return True
         s = z3.Tactic(tactic).solver()
         s.set('timeout', timeout_ms or self.query_timeout_ms)
-        for a in self.solver.assertions():
+        for a in list(self.solver.assertions()) + list(self.fp_assertions):
             s.add(a)
         s.add(z3.Not(z))
         t0 = time.perf_counter()
@@ -976,7 +978,7 @@ class Engine:
 
     # ---- solver ------------------------------------------------------------
     def _check(self, *extra):
-        if self.oneshot_tactic:
+        if self.oneshot_tactic and (any(_mentions_fp(e) for e in extra) or (not extra and self.fp_assertions)):
             return self._check_oneshot(*extra)
         t0 = time.perf_counter()
         self.solver.push()
@@ -1002,7 +1004,10 @@ class Engine:
         t0 = time.perf_counter()
         s = z3.Tactic(self.oneshot_tactic).solver()
         s.set('timeout', self.query_timeout_ms)
-        for a in self.solver.assertions():
+        # floating-point / bit-vector constraints live in fp_assertions; the other
+        # assertions of the path are about disjoint symbols and are left out so that
+        # the query stays inside QF_BVFP
+        for a in self.fp_assertions:
             s.add(a)
         for e in extra:
             s.add(e)
@@ -1017,6 +1022,12 @@ class Engine:
             res = 'unknown'
             self.stats.q_unknown += 1
         return res, model
+
+    def _assert(self, lit):
+        if self.oneshot_tactic and _mentions_fp(lit):
+            self.fp_assertions.append(lit)
+        else:
+            self.solver.add(lit)
 
     def _next_prefix_entry(self):
         d = len(self.decisions)
@@ -1059,7 +1070,7 @@ class Engine:
                     self.stats.forks += 1
                     self.alternatives.append(tuple(self.decisions) + (('b', False),))
         self.decisions.append(('b', choice))
-        self.solver.add(cond if choice else z3.Not(cond))
+        self._assert(cond if choice else z3.Not(cond))
         self.known[key] = (cond, choice)
         ncond = z3.simplify(z3.Not(cond))
         self.known[ncond.get_id()] = (ncond, not choice)
@@ -1129,9 +1140,9 @@ class Engine:
             raise PathAbort('assumption contradicts path')
         entry = self._next_prefix_entry()
         # assumptions do not consume prefix entries; feasibility is checked
-        self.solver.add(z)
+        self._assert(z)
         if entry is None:
-            res, _ = self._check()
+            res, _ = self._check(*([z] if (self.oneshot_tactic and _mentions_fp(z)) else []))
             if res == 'unsat':
                 raise PathAbort('assumption infeasible')
             if res == 'unknown':
@@ -1151,7 +1162,7 @@ class Engine:
         """A model of pathcond+extra whose real inputs are multiples of 1/den if
         one exists (exactly representable in binary floating point), else any model."""
         reals = [p for p in self.inputs.values() if isinstance(p, SymReal)]
-        if reals:
+        if reals and not self.fp_assertions:
             cons = list(extra)
             for i, p in enumerate(reals):
                 k = z3.Int('dy!%d' % i)
@@ -1266,7 +1277,7 @@ class Engine:
         def oneshot(*extra):
             s = z3.Tactic(tactic).solver()
             s.set('timeout', timeout_ms)
-            for a in self.solver.assertions():
+            for a in list(self.solver.assertions()) + list(self.fp_assertions):
                 s.add(a)
             for e in extra:
                 s.add(e)
@@ -1364,6 +1375,25 @@ class Engine:
                 return wrap(z3.If(ze == 0, z3.RealVal(1), z3.RealVal(0)))
         self.add_axiom(r > 0)
         return wrap(r)
+
+
+_FP_CACHE = {}
+
+
+def _mentions_fp(t):
+    """Does the term contain a floating-point or bit-vector sub-term?"""
+    if not isinstance(t, z3.ExprRef):
+        return False
+    key = t.get_id()
+    hit = _FP_CACHE.get(key)
+    if hit is not None and hit[0].eq(t):
+        return hit[1]
+    k = t.sort().kind()
+    res = k in (z3.Z3_FLOATING_POINT_SORT, z3.Z3_ROUNDING_MODE_SORT, z3.Z3_BV_SORT) or any(_mentions_fp(c) for c in t.children())
+    if len(_FP_CACHE) > 200000:
+        _FP_CACHE.clear()
+    _FP_CACHE[key] = (t, res)
+    return res
 
 
 def _free_consts(t, acc=None, seen=None):
